@@ -135,14 +135,17 @@ BorrowRulesOK ==
 
 -----------------------------------------------------------------------------
 (* Thread transfer.  Element kinds: "plain" u64 (Send + Sync), "cell" Cell<u64> (Send,  *)
-(* not Sync), "rc" Rc<u64> (neither).  An element kind is used as the VALUE type, and   *)
-(* as the KEY type where it can be one (Rc<u64> is Hash + Eq, Cell is not).             *)
-Kinds   == {"plain", "cell", "rc"}
+(* not Sync), "rc" Rc<u64> (neither), "cellkey" a struct with a u64 id and a Cell<u64>  *)
+(* counter that hashes / compares on the id only (Send, not Sync, and Hash + Eq).  An   *)
+(* element kind is used as the VALUE type or as the KEY type, where it can be one:      *)
+(* Cell is not Hash, so the Send-but-not-Sync key is "cellkey"; Rc<u64> is Hash + Eq.   *)
+Kinds   == {"plain", "cell", "rc", "cellkey"}
 Markers == {"Send", "Sync"}
-IsSend(k) == k \in {"plain", "cell"}
+IsSend(k) == k \in {"plain", "cell", "cellkey"}
 IsSync(k) == k = "plain"
 
-Elems == { [pos |-> "value", elem |-> k] : k \in Kinds } \cup { [pos |-> "key", elem |-> "rc"] }
+Elems == { [pos |-> "value", elem |-> k] : k \in {"plain", "cell", "rc"} }
+         \cup { [pos |-> "key", elem |-> k] : k \in {"rc", "cellkey"} }
 KeyKind(e) == IF e.pos = "key" THEN e.elem ELSE "plain"
 ValKind(e) == IF e.pos = "value" THEN e.elem ELSE "plain"
 
@@ -158,11 +161,14 @@ Justified(class, marker, kk, vk) ==
             IF marker = "Send" THEN IsSync(kk) /\ IsSend(vk) ELSE IsSync(kk) /\ IsSync(vk)
 
 (* Unjustified transfers must be rejected.  Transfers of plain contents must be         *)
-(* accepted (positive controls).  Anything else is justified but a library may be       *)
-(* conservative about it: "either", not checked.                                        *)
+(* accepted (positive controls), and so must sending a cache whose contents are Send:   *)
+(* a cache owns its keys and values, and this control shows that the Send-but-not-Sync  *)
+(* element kinds really are Send, i.e. that the Sync verdicts are about Sync.  Anything *)
+(* else is justified but a library may be conservative about it: "either", not checked. *)
 MarkerVerdict(class, marker, e) ==
     IF ~Justified(class, marker, KeyKind(e), ValKind(e)) THEN "reject"
     ELSE IF KeyKind(e) = "plain" /\ ValKind(e) = "plain" THEN "accept"
+    ELSE IF class = "cache" /\ marker = "Send" THEN "accept"
     ELSE "either"
 
 MarkerProbes ==
@@ -176,4 +182,7 @@ MarkerRulesOK ==
         /\ e.elem = "plain" => MarkerVerdict(t.class, mk, e) = "accept"
         /\ (e.elem = "cell" /\ mk = "Sync") => MarkerVerdict(t.class, mk, e) = "reject"
         /\ (e.elem = "cell" /\ t.class = "iter_shared") => MarkerVerdict(t.class, mk, e) = "reject"
+        \* a Send-but-not-Sync KEY: a cache may be sent but not shared; every iterator hands out &K
+        /\ e.elem = "cellkey" =>
+              MarkerVerdict(t.class, mk, e) = (IF t.class = "cache" /\ mk = "Send" THEN "accept" ELSE "reject")
 =============================================================================
